@@ -54,3 +54,60 @@ def far_field(topo, current, k, theta_deg, phi_deg, ground=False, rule='point'):
                 ph = np.exp(1j * k * (rhat @ mid)) * (np.sin(u) / u if abs(u) > 1e-12 else 1.0)
             N += I * k * hl * tt * ph
     return -1j * G0 * (N @ that), -1j * G0 * (N @ phat)
+
+
+# ---------------------------------------------------------------------------
+# near field
+
+_GX, _GW = np.polynomial.legendre.leggauss(64)
+_GX = (_GX + 1) / 2
+_GW = _GW / 2
+
+
+def _seg_int(obs, a, b, r, k, thin, adaptive=False):
+    """psi = int exp(-jkR)/R dl over a->b and its gradient with respect to the observation point
+    (analytic gradient of the kernel under the integral)"""
+    L = float(np.linalg.norm(b - a))
+    if adaptive:
+        def f(t):
+            d = obs - (a + (b - a) * t)
+            R = math.sqrt(d @ d + (0.0 if thin else r * r))
+            e = np.exp(-1j * k * R)
+            return np.concatenate([[e / R], -(1 + 1j * k * R) * e / R ** 3 * d])
+        v, err = quad_vec(f, 0, 1, epsabs=1e-13, epsrel=1e-11)
+        return v[0] * L, v[1:] * L
+    pts = a[None, :] + (b - a)[None, :] * _GX[:, None]
+    d = obs[None, :] - pts
+    R = np.sqrt((d * d).sum(axis=1) + (0.0 if thin else r * r))
+    e = np.exp(-1j * k * R)
+    psi = (e / R * _GW).sum() * L
+    grad = ((-(1 + 1j * k * R) * e / R ** 3 * _GW)[:, None] * d).sum(axis=0) * L
+    return psi, grad
+
+
+def near_field(topo, current, k, obs, ground=False, srm=0.0, adaptive=False):
+    """E (V/m) and H (A/m) at obs of the pulse currents and their charges; over ideal ground every pulse
+    that is not grounded also radiates through its mirror image with opposite current"""
+    eta = 376.730313668
+    lam = 2 * math.pi / k
+    mconst = eta * lam / (8 * math.pi ** 2)          # 1 / (4 pi omega eps0)
+    E = np.zeros(3, complex)
+    H = np.zeros(3, complex)
+    obs = np.asarray(obs, float)
+    for p in topo.pulses:
+        I = current[p.idx]
+        paths = [(p, 1.0)]
+        if ground and p.kind != 'gnd':
+            paths.append((p.mirrored(), -1.0))
+        for q, sg in paths:
+            L0, L1 = q.l0, q.l1
+            t0 = (q.pt - q.e0) / L0
+            t1 = (q.e1 - q.pt) / L1
+            th0, th1 = q.r0 <= srm, q.r1 <= srm
+            pv, gv = _seg_int(obs, (q.e0 + q.pt) / 2, q.pt, q.r0, k, th0, adaptive)
+            pu, gu = _seg_int(obs, q.pt, (q.pt + q.e1) / 2, q.r1, k, th1, adaptive)
+            _, g0 = _seg_int(obs, q.e0, q.pt, q.r0, k, th0, adaptive)
+            _, g1 = _seg_int(obs, q.pt, q.e1, q.r1, k, th1, adaptive)
+            E += -1j * mconst * I * sg * (k * k * (t0 * pv + t1 * pu) - (g1 / L1 - g0 / L0))
+            H += I * sg * (np.cross(gv, t0) + np.cross(gu, t1)) / (4 * math.pi)
+    return E, H
